@@ -3,10 +3,12 @@
 package main
 
 import (
+	"bytes"
 	"crypto/aes"
 	"crypto/cipher"
 	"crypto/ed25519"
 	"fmt"
+	"strings"
 
 	"golang.org/x/crypto/chacha20"
 	"golang.org/x/crypto/chacha20poly1305"
@@ -31,6 +33,8 @@ type call struct {
 	pre        int    // chacha: bytes consumed before the call (leaves a partial block buffered)
 	ctr        uint32 // chacha: SetCounter before anything
 	sector     uint64
+	priv, pub  []byte    // sign: caller-side key arrays (64 / 32 bytes) to use, if set
+	note       *[]string // receives the names of key arrays the callee modified
 }
 
 func newAEAD(f string, key []byte) cipher.AEAD {
@@ -47,8 +51,24 @@ func newAEAD(f string, key []byte) cipher.AEAD {
 	return a
 }
 
-func arr32(b []byte) *[32]byte { var a [32]byte; copy(a[:], b); return &a }
-func arr24(b []byte) *[24]byte { var a [24]byte; copy(a[:], b); return &a }
+// arr32 / arr24 hand the callee a pointer INTO the caller's buffer (no copy), so that a write through the
+// array pointer is seen by the caller-memory check
+func arr32(b []byte) *[32]byte {
+	if len(b) == 32 {
+		return (*[32]byte)(b)
+	}
+	var a [32]byte
+	copy(a[:], b)
+	return &a
+}
+func arr24(b []byte) *[24]byte {
+	if len(b) == 24 {
+		return (*[24]byte)(b)
+	}
+	var a [24]byte
+	copy(a[:], b)
+	return &a
+}
 
 // run performs the call with the given dst / src / ad slices; returns the returned slice (nil for the
 // xor-style functions) and ok=false when an Open reported failure.
@@ -98,12 +118,27 @@ func run(c call, dst, src, ad []byte) (ret []byte, ok bool) {
 	case "boxopen":
 		ret, ok = box.OpenAfterPrecomputation(dst, src, arr24(c.nonce), arr32(c.key))
 	case "sign":
-		var priv [64]byte
-		copy(priv[:], ed25519.NewKeyFromSeed(c.key))
-		ret = sign.Sign(dst, src, &priv)
+		priv := c.priv
+		if priv == nil {
+			priv = make([]byte, 64)
+		}
+		want := ed25519.NewKeyFromSeed(c.key)
+		copy(priv, want)
+		ret = sign.Sign(dst, src, (*[64]byte)(priv))
+		if c.note != nil && !bytes.Equal(priv, want) {
+			*c.note = append(*c.note, "priv")
+		}
 	case "signopen":
-		pub := ed25519.NewKeyFromSeed(c.key).Public().(ed25519.PublicKey)
-		ret, ok = sign.Open(dst, src, arr32(pub))
+		pub := c.pub
+		if pub == nil {
+			pub = make([]byte, 32)
+		}
+		want := ed25519.NewKeyFromSeed(c.key).Public().(ed25519.PublicKey)
+		copy(pub, want)
+		ret, ok = sign.Open(dst, src, (*[32]byte)(pub))
+		if c.note != nil && !bytes.Equal(pub, want) {
+			*c.note = append(*c.note, "pub")
+		}
 	default:
 		panic("unknown f " + c.f)
 	}
@@ -122,7 +157,7 @@ func overhead(f string) int {
 	return 16
 }
 
-func genOne(g *hx.Gen) {
+func genOne(g *hx.Gen) string {
 	r := g.R
 	f := hx.Pick(r, fns)
 	c := call{f: f, key: r.Bytes(32)}
@@ -240,7 +275,7 @@ func genOne(g *hx.Gen) {
 	}
 	if dOff < 0 || dOff+dCap > arenaLen || dOff+dLen > arenaLen {
 		g.Stat("skipped-out-of-arena")
-		return
+		return ""
 	}
 	// AD placement for Seal: anywhere (may overlap plaintext and/or output)
 	if f == "seal" || f == "sealx" || f == "sealgen" {
@@ -303,36 +338,101 @@ func genOne(g *hx.Gen) {
 		g.Stat("open-out-overlaps-tag")
 	}
 	g.Stat("f-" + f)
-	g.Emit("ov f=%s cls=%s arena=%s src=%d,%d dst=%d,%d,%d ad=%d,%d key=%s nonce=%s pre=%d ctr=%d sector=%d out=%s",
+	return fmt.Sprintf("ov f=%s cls=%s arena=%s src=%d,%d dst=%d,%d,%d ad=%d,%d key=%s nonce=%s pre=%d ctr=%d sector=%d out=%s",
 		f, cls, hx.Hex(arena), srcOff, srcLen, dOff, dLen, dCap, adOff, adLen, hx.Hex(c.key), hx.Hex(c.nonce), c.pre, c.ctr, c.sector, hx.Hex(oracle))
 }
 
 func gen(g *hx.Gen) {
 	n := g.Count(8000, 120000)
 	for i := 0; i < n; i++ {
-		genOne(g)
+		if g.R.Chance(1, 8) {
+			// a session: 2..3 calls on the SAME arena, key and nonce arrays, contents replaced in place
+			var subs []string
+			for j := g.R.Range(2, 3); j > 0; j-- {
+				if s := genOne(g); s != "" {
+					subs = append(subs, s)
+				}
+			}
+			if len(subs) > 0 {
+				g.Stat("session")
+				g.Emit("ovs %s", strings.Join(subs, " ## "))
+			}
+		} else if s := genOne(g); s != "" {
+			g.Emit("%s", s)
+		}
 	}
 }
 
-func exec(line string) string {
+// callerMem is the caller-side memory of one op or one session: the arena every slice points into, and the
+// key / nonce arrays (inside hx.Arena backing arrays with sentinel slack and spare capacity).
+type callerMem struct {
+	arena      []byte
+	guard      *hx.Arena
+	key, nonce []byte
+	priv, pub  []byte
+}
+
+func newCallerMem() *callerMem {
+	g := hx.NewArena()
+	return &callerMem{arena: make([]byte, arenaLen), guard: g, key: g.InOut("key", make([]byte, 32)), nonce: g.InOut("nonce", make([]byte, 24)),
+		priv: g.InOut("priv", make([]byte, 64)), pub: g.InOut("pub", make([]byte, 32))}
+}
+
+func execOne(line string, m *callerMem) string {
 	o := hx.Parse(line)
-	arena := o.Hex("arena")
+	arena := m.arena
+	copy(arena, o.Hex("arena"))
 	s := o.Ints("src")
 	d := o.Ints("dst")
 	a := o.Ints("ad")
-	c := call{f: o.Str("f"), key: o.Hex("key"), nonce: o.Hex("nonce"), pre: o.Int("pre"), ctr: uint32(o.Int("ctr")), sector: o.U64("sector")}
+	m.guard.Scribble()
+	keyB, nonceB := o.Hex("key"), o.Hex("nonce")
+	key, nonce := m.key[:len(keyB)], m.nonce[:len(nonceB)]
+	copy(key, keyB)
+	copy(nonce, nonceB)
+	var notes []string
+	c := call{f: o.Str("f"), key: key, nonce: nonce, pre: o.Int("pre"), ctr: uint32(o.Int("ctr")), sector: o.U64("sector"),
+		priv: m.priv, pub: m.pub, note: &notes}
 	src := arena[s[0] : s[0]+s[1] : s[0]+s[1]]
 	dst := arena[d[0] : d[0]+d[1] : d[0]+d[2]]
 	ad := arena[a[0] : a[0]+a[1] : a[0]+a[1]]
 	var ret []byte
 	ok := true
-	if _, p := hx.PanicText(func() { ret, ok = run(c, dst, src, ad) }); p {
-		return "panic"
+	_, p := hx.PanicText(func() { ret, ok = run(c, dst, src, ad) })
+	// the key and nonce arrays are inputs: unchanged, nothing written around them
+	mut := m.guard.Check()
+	if !bytes.Equal(key, keyB) {
+		notes = append(notes, "key")
+	}
+	if !bytes.Equal(nonce, nonceB) {
+		notes = append(notes, "nonce")
+	}
+	if len(notes) > 0 {
+		if mut == "-" {
+			mut = strings.Join(notes, ",")
+		} else {
+			mut += "," + strings.Join(notes, ",")
+		}
+	}
+	if p {
+		return "panic mut=" + mut
 	}
 	if !ok {
-		return "fail mem=" + hx.Hex(arena)
+		return "fail mem=" + hx.Hex(arena) + " mut=" + mut
 	}
-	return fmt.Sprintf("ok ret=%s mem=%s", hx.Hex(ret), hx.Hex(arena))
+	return fmt.Sprintf("ok ret=%s mem=%s mut=%s", hx.Hex(ret), hx.Hex(arena), mut)
+}
+
+func exec(line string) string {
+	if strings.HasPrefix(line, "ovs ") {
+		m := newCallerMem()
+		var outs []string
+		for _, sub := range strings.Split(line[4:], " ## ") {
+			outs = append(outs, execOne(sub, m))
+		}
+		return strings.Join(outs, " ## ")
+	}
+	return execOne(line, newCallerMem())
 }
 
 func main() { hx.Main(hx.Harness{Gen: gen, Exec: exec}) }
